@@ -58,10 +58,12 @@ func specialSort(t types.Type) (string, bool) {
 		return "Int", true
 	case "sync.Mutex", "sync.RWMutex", "sync.WaitGroup", "sync.Once", "sync.Cond", "sync.Map", "sync.Pool":
 		return "Int", true
-	case "sync/atomic.Uint64", "sync/atomic.Int64", "sync/atomic.Uint32", "sync/atomic.Int32", "sync/atomic.Uintptr", "sync/atomic.Value":
+	case "sync/atomic.Uint64", "sync/atomic.Int64", "sync/atomic.Uint32", "sync/atomic.Int32", "sync/atomic.Uintptr":
 		return "Int", true
 	case "sync/atomic.Bool":
 		return "Bool", true
+	case "sync/atomic.Value":
+		return "Iface", true
 	case "sync/atomic.Pointer":
 		return "Int", true
 	}
@@ -114,6 +116,9 @@ func (vc *VC) zeroOf(t types.Type) Term {
 	if s, ok := specialSort(t); ok {
 		if s == "Bool" {
 			return "false"
+		}
+		if s == "Iface" {
+			return "(mk-iface 0 0)"
 		}
 		if n, ok := t.(*types.Named); ok && n.Obj().Name() == "Time" {
 			return "TimeZero"
